@@ -160,5 +160,11 @@ CHECKS["C26"] = _sem("Every query of a generated program becomes a deterministic
                      "subquery/3 with the program's evidence as evidence list; the bound probability of every answer is "
                      "judged against the exact (conditional) probability computed by TLC.", "DESIGN.md §5 C26")
 
+CHECKS["C29"] = _sem("Histories on a prepared ClauseDB: extend() (also nested), additions of facts / rules / ADs for new and "
+                     "existing predicates, interleaved queries on the extension and on its ancestors; every query result is "
+                     "judged by TLC (Semantics.tla) on the program that database denotes at that moment, which implies "
+                     "equality with preparing the union from scratch and that ancestors are unchanged.",
+                     "DESIGN.md §5 C29", technique="API-call histories on the real ClauseDB judged by the TLA+ Semantics oracle (TLC)")
+
 NOT_YET = "check not built yet in this round (planned in DESIGN.md §5); not claimed"
 NOT_APPLICABLE = {}
